@@ -80,6 +80,76 @@ fn run_fine(later_first: bool) -> Result<u64, String> {
     Ok(vcheck::fp(&got))
 }
 
+// ---- large values: very long sleeps, deadlines around 2^32 s ---------------------------------
+
+struct Far {
+    log: Arc<Mutex<Vec<(String, u128)>>>,
+    /// (label, sleep duration in ns)
+    sleeps: Vec<(String, u128)>,
+    /// (label, absolute deadline in ns) for sleep_until
+    untils: Vec<(String, u128)>,
+    reversed: bool,
+}
+fn dur_ns(ns: u128) -> Duration {
+    Duration::new((ns / 1_000_000_000) as u64, (ns % 1_000_000_000) as u32)
+}
+impl Module for Far {
+    fn at_sim_start(&mut self, _: usize) {
+        let mut jobs: Vec<(String, u128, bool)> = self.sleeps.iter().map(|(n, d)| (n.clone(), *d, false)).chain(self.untils.iter().map(|(n, d)| (n.clone(), *d, true))).collect();
+        if self.reversed {
+            jobs.reverse();
+        }
+        for (name, d, abs) in jobs {
+            let l = self.log.clone();
+            tokio::spawn(async move {
+                if abs {
+                    sleep_until(SimTime::from_duration(dur_ns(d))).await;
+                } else {
+                    sleep(dur_ns(d)).await;
+                }
+                l.lock().unwrap().push((name, SimTime::now().as_nanos()));
+            });
+        }
+    }
+}
+/// which: 0 = sleeps around 2^36 ms (about 2.18 years) from time zero; 1 = a simulation starting
+/// 10 s before 2^32 s with deadlines on both sides of it; 2 = starting at 20000000.123456789 s
+/// with nanosecond-spaced deadlines. Every timer fires at exactly its deadline.
+fn run_far(which: u8, reversed: bool) -> Result<u64, String> {
+    let sec = 1_000_000_000u128;
+    let (start, sleeps, untils): (u128, Vec<(String, u128)>, Vec<(String, u128)>) = match which {
+        0 => {
+            let m = (1u128 << 36) * 1_000_000;
+            (0, [m - 3_000_000, m - 2_000_000, m - 1_999_999, m - 1_000_000, m, m + 5 * sec, 1u128 << 62].iter().enumerate().map(|(i, d)| (format!("s{i}"), *d)).collect(), vec![("u0".into(), m + 1)])
+        }
+        1 => {
+            let p = (1u128 << 32) * sec;
+            (p - 10 * sec, [5 * sec, 15 * sec, 10 * sec, 10 * sec + 1, 10 * sec - 1].iter().enumerate().map(|(i, d)| (format!("s{i}"), *d)).collect(), vec![("u0".into(), p + 2), ("u1".into(), p - 2), ("u2".into(), 2 * p - 20 * sec + 3)])
+        }
+        _ => {
+            let st = 20_000_000_123_456_789u128;
+            (st, [1u128, 2, 3, 1_500_000_001, 999_999_999].iter().enumerate().map(|(i, d)| (format!("s{i}"), *d)).collect(), vec![("u0".into(), st + 4), ("u1".into(), st + 1_500_000_002)])
+        }
+    };
+    let mut exp: Vec<(String, u128)> = sleeps.iter().map(|(n, d)| (n.clone(), start + d)).chain(untils.iter().cloned()).collect();
+    let got = quiet_catch(move || {
+        let log: Arc<Mutex<Vec<(String, u128)>>> = Default::default();
+        let mut sim = Sim::new(());
+        sim.node("m", Far { log: log.clone(), sleeps, untils, reversed });
+        let r = Builder::seeded(1).quiet().cqueue_options(1024, Duration::from_secs(86_400)).start_time(SimTime::from_duration(dur_ns(start))).build(sim.freeze()).run();
+        drop(r);
+        let mut g = log.lock().unwrap().clone();
+        g.sort();
+        g
+    })
+    .map_err(|m| format!("panicked: {m}"))?;
+    exp.sort();
+    if got != exp {
+        return Err(format!("large-value probe {which} (start {start}ns, timers armed in {} order): completions (label, ns) {got:?}, expected {exp:?}", if reversed { "reverse" } else { "listed" }));
+    }
+    Ok(vcheck::fp(&got))
+}
+
 const S: u64 = 1000; // ms
 /// the message-fed flag becomes true this long after the module (re)started
 const FLAG_AT: u64 = 2 * S;
@@ -672,7 +742,7 @@ impl Property for C05 {
         ]
     }
     fn required_features(&self, _tier: Tier) -> Vec<&'static str> {
-        vec!["live_timer_behind_cancelled_one", "message_timer_tie", "two_tasks", "restart_variant", "interval_missed_tick", "many_timers_sharing_a_deadline", "deadlines_within_one_millisecond"]
+        vec!["live_timer_behind_cancelled_one", "message_timer_tie", "two_tasks", "restart_variant", "interval_missed_tick", "many_timers_sharing_a_deadline", "deadlines_within_one_millisecond", "very_long_sleeps_and_deadlines_around_2^32_seconds"]
     }
     fn explore(&self, ctx: &mut Ctx) {
         if ctx.is_first_shard() {
@@ -682,6 +752,19 @@ impl Property for C05 {
                 match run_fine(later_first) {
                     Ok(o) => ctx.outcome(o),
                     Err(d) => ctx.violation("violation", || json!({"sub_millisecond_probe": later_first}), d),
+                }
+            }
+        }
+        for which in 0..3u8 {
+            for reversed in [false, true] {
+                if !ctx.mine_key(u64::from(which) * 2 + u64::from(reversed)) {
+                    continue;
+                }
+                ctx.out.evaluations += 1;
+                ctx.hit("very_long_sleeps_and_deadlines_around_2^32_seconds");
+                match run_far(which, reversed) {
+                    Ok(o) => ctx.outcome(o),
+                    Err(d) => ctx.violation("violation", || json!({"large_value_probe": which, "reversed": reversed}), d),
                 }
             }
         }
@@ -789,6 +872,9 @@ impl Property for C05 {
         }
     }
     fn replay(&self, case: &Value) -> Result<(), String> {
+        if let Some(w) = case.get("large_value_probe") {
+            return run_far(w.as_u64().unwrap() as u8, case["reversed"].as_bool().unwrap()).map(|_| ());
+        }
         if let Some(lf) = case.get("sub_millisecond_probe") {
             return run_fine(lf.as_bool().unwrap()).map(|_| ());
         }
